@@ -182,7 +182,7 @@ def run(ctx):
     def m_gt(d):
         if d[0] == "call" and str(d[1]).endswith("::gt") and len(d[2]) == 2:
             a, c = norm(d[2][0]), norm(d[2][1])
-            return a[0] == "call" and str(a[1]).endswith("calculate_expiry") and c[0] == "call" and c[1] == "std::time::Duration::from_secs" and norm(c[2][0]) == ("const", 0)
+            return a[0] == "call" and str(a[1]).endswith("calculate_expiry") and c[0] == "call" and c[1] == "std::time::Duration::from_secs" and is_const(norm(c[2][0]), 0)
         return False
     gt_true = []
     for sbb, d, te, fe in bool_switches(P, b, m_gt):
